@@ -719,31 +719,27 @@ func (s *Service) ClientClose(client *ClientService) {
 	for i := range s.clients {
 		if s.clients[i] == client {
 
-			// remove registered agents
-			for j := range s.Agents {
-				if s.Agents[j] != nil {
-					if s.Agents[j].client == client {
-						logger.Warn(fmt.Sprintf("%v unregistered agent %v", "["+colors.BoldWhite("SERVICE")+"]", "[Name: "+colors.Blue(s.Agents[j].Name)+"]"))
-
-						// remove from list
-						s.Agents = append(s.Agents[:j], s.Agents[j+1:]...)
-						break
-					}
+			// remove every agent registered by this client
+			var agents []*AgentService
+			for _, a := range s.Agents {
+				if a != nil && a.client == client {
+					logger.Warn(fmt.Sprintf("%v unregistered agent %v", "["+colors.BoldWhite("SERVICE")+"]", "[Name: "+colors.Blue(a.Name)+"]"))
+					continue
 				}
+				agents = append(agents, a)
 			}
+			s.Agents = agents
 
-			// remove registered listeners
-			for j := range s.Listeners {
-				if s.Listeners[j] != nil {
-					if s.Listeners[j].client == client {
-						logger.Warn(fmt.Sprintf("%v unregistered a new listener %v %v", "["+colors.BoldWhite("SERVICE")+"]", "[Name: "+colors.Blue(s.Listeners[j].Name)+"]", "[Agent: "+colors.Blue(s.Listeners[j].Agent)+"]"))
-
-						// remove from list
-						s.Listeners = append(s.Listeners[:j], s.Listeners[j+1:]...)
-						break
-					}
+			// remove every listener registered by this client
+			var listeners []*ListenerService
+			for _, l := range s.Listeners {
+				if l != nil && l.client == client {
+					logger.Warn(fmt.Sprintf("%v unregistered a new listener %v %v", "["+colors.BoldWhite("SERVICE")+"]", "[Name: "+colors.Blue(l.Name)+"]", "[Agent: "+colors.Blue(l.Agent)+"]"))
+					continue
 				}
+				listeners = append(listeners, l)
 			}
+			s.Listeners = listeners
 
 			// close client connection
 			if s.clients[i].Conn != nil {
@@ -753,8 +749,9 @@ func (s *Service) ClientClose(client *ClientService) {
 				}
 			}
 
-			// remove from list
+			// remove from list (a connection is listed once)
 			s.clients = append(s.clients[:i], s.clients[i+1:]...)
+			break
 		}
 	}
 
